@@ -79,8 +79,10 @@ CHECKS.update({
     'C08': dict(text="Renderer model (coq/Model/Render.v: fusing of product chains, sum flattening, inside_sum variants) tied by exact text equality with "
                 "str(ConvertError) on float-free, cause-free trees. Theorems: every tree the diagnostic pass produces for any well-formed type and any "
                 "value is well shaped, rendering it never raises, and the message contains (as tokens) every path component - also in fused a.b.c "
-                "chains -, every leaf expectation, missing / unexpected / duplicated field, info line and condition name. str() of floats and "
-                "traceback text are not modelled (monitor on pane only).",
+                "chains -, every leaf expectation, missing / unexpected / duplicated field, info line and condition name; the sets of missing and "
+                "unexpected names are printed sorted, and the message is the same however those sets are enumerated (set_equiv e e' -> equal text). "
+                "On pane additionally: the same failures rendered under four PYTHONHASHSEEDs. str() of floats and traceback text are not modelled "
+                "(monitor on pane only).",
                 technique='Coq proof (totality + completeness of the renderer on all producible trees) + text correspondence', design='7 (C08)'),
     'C09': dict(text="PARTIAL. Theorem (complete sweep of a table generated from the source by an AST data-flow pass): every mutating method call / item "
                 "assignment / deletion in every pass of every converter class has a freshly built object or a copy as receiver, never the value passed in; "
@@ -92,8 +94,10 @@ CHECKS.update({
                 "distinct keys in recency order and evicts the least recent, and the invariant holds in EVERY interleaving of threads at the code's lock "
                 "granularity; the converter cache keyed on id(type) answers with the structure of the object asked about after ANY history of builds, drops, "
                 "id re-use and lookups, given that entries pin their type object (read from the source), and is refuted without pinning. Real KeyCache vs "
-                "model call-by-call in coqc; Build/Convert/Drop/GC histories, first-seen order and threads on the real make_converter. PARTIAL for threads "
-                "(byte-code preemption not modelled).",
+                "model call-by-call in coqc; Build/Convert/Drop/GC histories, first-seen order and threads on the real make_converter. The cache of generic "
+                "subclasses behind G[params] (Model/TypeKey.v): pane's ordered key is injective, so after ANY sequence of specialisations and evictions "
+                "each G[p] is the class built for p itself, refuted for a key that compares parameters by == (Union / Literal order); tied by "
+                "corr_typekey (== of typing objects, _ordered_type_key, identity of the classes). PARTIAL for threads (byte-code preemption not modelled).",
                 technique='Coq proof by induction over operation histories / interleavings + KeyCache correspondence + history monitor', design='7 (C10)'),
     'C12': dict(text=CONV + "Theorems: the fast pass of a tagged union equals a specification that depends on the tag value only; a body error is exactly the chosen "
                 "variant's tree; unknown / unhashable tags give a leaf that names the tag and shows the tag value, an absent tag names the key(s); non-mappings "
@@ -114,8 +118,12 @@ CHECKS.update({
                 "live dataclasses._hash_action on all 16 cells; for field values in any domain with an equivalence == and a compatible total order: == is an "
                 "equivalence and ignores generic parameters, exactly one of <, ==, > holds for same-class instances, <= / >= are derived, a<b iff b>a, equal "
                 "instances hash equal when hash fields are compare fields (necessary: _refuted). Comparisons of the real classes vs the model in coqc over the "
-                "exhaustive option cube x field flags; frozen, copy, deepcopy, replace, repr on pane. Two findings recorded.",
-                technique='Coq proof (order/equality/hash laws, reflected hash table) + option-cube correspondence', design='7 (C16)'),
+                "exhaustive option cube x field flags. Instance state machine (Model/Instance.v; assign / delete / copy / deepcopy / replace): frozen "
+                "instances reject assignment, deletion is rejected, and by an invariant carried over every operation sequence: copy, deepcopy and "
+                "replace() of every reachable instance give the same values and the same set-field record, replace holds the re-validated value for "
+                "what it changes, keeps every other field, refuses non-members (ConvertError) and unknown names (TypeError); tied step by step by "
+                "corr_inst on generated classes and operation sequences. repr on pane. Three findings recorded.",
+                technique='Coq proof (order/equality/hash laws, reflected hash table; instance state machine with an invariant over operation sequences) + option-cube and operation-sequence correspondence', design='7 (C16)'),
     'C17': dict(text="Coq model of classes._process (dict update over the reversed MRO, override in place, defaults inherited through the class attribute of the nearest valued ancestor, KW_ONLY, keyword-only partition, positional "
                 "bounds) tied by correspondence on random hierarchies; theorems: effective names are in first-occurrence order, a redeclared field keeps its position "
                 "and takes the last declaration, keyword-only fields are moved back stably, type-variable substitution composes and reaches every occurrence. "
